@@ -101,11 +101,92 @@ def scen_condition(ctx):
     return bad
 
 
+class Hooked:
+    """a real billiard semaphore with a callback before / after release (to pin one schedule down)"""
+    def __init__(self, real, before=None, after=None):
+        self._real, self._semlock, self._before, self._after = real, real._semlock, before, after
+
+    def acquire(self, *a):
+        return self._real.acquire(*a)
+
+    def release(self):
+        if self._before:
+            self._before()
+        self._real.release()
+        if self._after:
+            self._after()
+
+    def get_value(self):
+        return self._real.get_value()
+
+
+def scen_timeouts_inside_notify(ctx):
+    """k timed waiters time out while notify_all() / notify() sits between taking them off the sleeper count and handing
+    out the first wake-up token: afterwards no token may be left and the three counters are zero"""
+    bad = []
+    for kind in ('notify_all', 'notify'):
+        for k in (1, 2, 3):
+            cond = ctx.Condition()
+            st = {'acks': 0, 'tokens': 0}
+            guard = threading.Lock()
+            all_out = threading.Event()
+            need = k if kind == 'notify_all' else 1
+
+            def after_ack():
+                with guard:
+                    st['acks'] += 1
+                    if st['acks'] >= need:
+                        all_out.set()
+
+            def before_token():
+                with guard:
+                    st['tokens'] += 1
+                    first = st['tokens'] == 1
+                if first:
+                    all_out.wait(5)
+            cond._woken_count = Hooked(cond._woken_count, after=after_ack)
+            cond._wait_semaphore = Hooked(cond._wait_semaphore, before=before_token)
+            res = []
+
+            def waiter():
+                with cond:
+                    res.append(cond.wait(0.3))
+            ts = [threading.Thread(target=waiter, daemon=True) for _ in range(k)]
+            for t in ts:
+                t.start()
+            t0 = time.monotonic()
+            while cond._sleeping_count.get_value() < k and time.monotonic() - t0 < 5:
+                time.sleep(0.005)
+            with cond:
+                getattr(cond, kind)()
+            for t in ts:
+                t.join(5)
+            # let waiters that were not notified (notify wakes one) run into their timeout
+            vals = (cond._sleeping_count.get_value(), cond._woken_count.get_value(), cond._wait_semaphore.get_value())
+            if any(t.is_alive() for t in ts):
+                bad.append('%s with %d timed waiters: a waiter never returned' % (kind, k))
+                continue
+            try:
+                with cond:
+                    cond.notify_all()          # reconciles what the timed-out waiters left (asserts a consistent state)
+                    late = cond.wait(0.1)
+            except AssertionError:
+                bad.append('%s while %d waiters timed out: the next notify_all() found a wake-up token left over '
+                           '(sleeping, woken, tokens after the call: %r)' % (kind, k, vals))
+                continue
+            if late:
+                bad.append('%s while %d waiters timed out: a later wait(0.1) with no notifier returned True -- a wake-up '
+                           'token was left over (sleeping, woken, tokens after the call: %r)' % (kind, k, vals))
+            elif kind == 'notify_all' and vals[2] != 0:
+                bad.append('notify_all while %d waiters timed out left %d wake-up tokens' % (k, vals[2]))
+    return bad
+
+
 def main():
     data = json.load(open(sys.argv[1]))
     print('replay of %s / %s' % (data['function'], data['obligation']))
     ctx = billiard.get_context()
-    bad = scen_event(ctx) + scen_condition(ctx)
+    bad = scen_event(ctx) + scen_condition(ctx) + scen_timeouts_inside_notify(ctx)
     for b in bad[:8]:
         print('  violation on real code: ' + b)
     print('REPRODUCED on real code' if bad else 'not reproduced')
